@@ -1,8 +1,8 @@
 (** C01 — rejection ABC returns exactly the best simulated draws, row-consistent.
     Model: Sched/Reject.v (buffer of n+b rows, merge, stable lexsort, state meta, batch estimator).
-    Proofs: Proofs/C01_Sorting.v, C01_Reject.v, C01_Estimator.v. *)
+    Proofs: Proofs/C01_Sorting.v, C01_Reject.v, C01_Estimator.v, C01_History.v. *)
 From Coq Require Import List ZArith NArith Arith Bool Sorting.Permutation Sorting.Sorted PrimFloat.
-From Elfi Require Import Sched.Sched Sched.Reject Proofs.C01_Sorting Proofs.C01_Reject Proofs.C01_Estimator.
+From Elfi Require Import Sched.Sched Sched.Reject Proofs.C01_Sorting Proofs.C01_Reject Proofs.C01_Estimator Proofs.C01_History.
 Import ListNotations.
 
 (** After every history of consumed batches (any number, any content, at most batch_size rows each)
@@ -85,5 +85,58 @@ Example C01_example :
       && rows_eqb (res_rows (extract s)) [Some (dz 0 8); Some (dz 1 2); Some (dz 1 3); Some (dz 1 7)]
       && deqb (res_threshold (extract s)) (Fin 1) && Nat.eqb (res_n_sim (extract s)) 9
   | None => false
+  end = true.
+Proof. vm_compute. reflexivity. Qed.
+
+(** ---- histories: several sample()/infer() runs on ONE Rejection instance ---- *)
+
+(** No cross-run state: whatever the instance went through before ([prev]: nothing, or the final
+    state of any earlier run), each run of a history gives exactly the fresh run's result. *)
+Theorem C01_history_runs_are_fresh :
+  forall h prev, history_results prev h = map model_result h.
+Proof. exact history_results_fresh. Qed.
+Print Assumptions C01_history_runs_are_fresh.
+
+(** The history correspondence [hagree] is the single-run correspondence of every run (same instance). *)
+Theorem C01_history_correspondence_each_run :
+  forall h, hagree h = same_instance h && forallb agree (h_runs h).
+Proof. exact hagree_each_fresh. Qed.
+Print Assumptions C01_history_correspondence_each_run.
+
+Theorem C01_history_ok_each_run :
+  forall h, hok h = true -> Forall (fun c => ok c = true /\ c_b c = h_b h) (h_runs h).
+Proof. exact hok_each. Qed.
+Print Assumptions C01_history_ok_each_run.
+
+(** Every finished run of every history, from any prior instance state and for every objective form
+    (any threshold, also 0 or one equal to an attained discrepancy): the returned rows are ascending,
+    the rows holding a draw are accepted draws among exactly the batches THIS run consumed (with
+    multiplicity, whole rows), nothing left out is better, with n_samples accepted draws there are
+    exactly n_samples rows and each holds a draw, all are <= the threshold when one was given, and
+    n_sim = n_batches * batch_size. *)
+Theorem C01_every_run_of_every_history_best :
+  forall h prev,
+    Forall (fun c => Forall (fun batch => length batch <= c_b c) (c_table c)) h ->
+    Forall2 (fun c r => forall res, r = Some res -> 0 < res_n_batches res ->
+               returns_best (c_n c) (snd (initial_objective (c_n c) (c_b c) (c_form c)))
+                            (concat (firstn (res_n_batches res) (c_table c))) (res_rows res)
+               /\ res_n_sim res = res_n_batches res * c_b c)
+            h (history_results prev h).
+Proof. exact history_every_run_best. Qed.
+Print Assumptions C01_every_run_of_every_history_best.
+
+(** Non-vacuity: one instance (batch_size 2), first a budget run that fills its buffer, then a run that
+    must return infinite-distance draws (fewer than n finite ones), then an exact-match run (threshold 0). *)
+Definition mk (n b : nat) (f : objective_form) (t : list (list draw)) : case :=
+  {| c_n := n; c_b := b; c_form := f; c_table := t; c_rows := []; c_threshold := PInf; c_n_sim := 0; c_n_batches := 0 |}.
+Example C01_history_example :
+  let t := [[dz 2 0; di 1]; [di 2; dz 0 3]; [di 4; di 5]; [dz 0 6; dz 1 7]] in
+  match history_results None [mk 2 2 (ByNsim 4) t; mk 4 2 (ByNsim 5) t; mk 2 2 (ByThreshold (Fin 0) 1) t] with
+  | [Some r1; Some r2; Some r3] =>
+      rows_eqb (res_rows r1) [Some (dz 0 3); Some (dz 2 0)] && Nat.eqb (res_n_batches r1) 2
+      && rows_eqb (res_rows r2) [Some (dz 0 3); Some (dz 2 0); Some (di 1); Some (di 2)] && Nat.eqb (res_n_batches r2) 3
+      && rows_eqb (res_rows r3) [Some (dz 0 3); Some (dz 0 6)] && Nat.eqb (res_n_batches r3) 4
+      && deqb (res_threshold r3) (Fin 0)
+  | _ => false
   end = true.
 Proof. vm_compute. reflexivity. Qed.
